@@ -64,6 +64,17 @@ Round 6:
                    flip_orientation and an orientation-reversing isometry),
                    Segment / Geodesic (exact diameters, opposite-nappe
                    representatives); keys per-index/<Class>{special-members}/...
+Round 7:
+  structure +      __getitem__ with every kind of NumPy index over the composite
+                   axes (lists, integer arrays incl. negative / repeated / 2-d,
+                   boolean masks, negative ints, Ellipsis, lists combined with
+                   ints / slices / each other, ranks 1..3), judged against the
+                   same key applied to an array of unit numbers; keys
+                   structure/__getitem__[<kind>]/{shape,unit-mismatch,exception:*}.
+  entry-points +   composite shapes (1,), (3,1), (1,1,2) for every entry;
+                   boundary_sphere_parameters, utils.sphere_through /
+                   circle_through; Polygon.in_standard_chart on sign-mixed
+                   composites against a per-unit numpy reference.
 
 The axis order for pairwise is the one the property fixes (object axes first);
 the repository's two baseline-failing tests assume the opposite.
@@ -127,6 +138,8 @@ ASSUMPTIONS = [
     "it holds at that moment; that relatives do not share primary data is not demanded",
     "special members: the Poincare circle of an exact diameter (straight line, radius "
     "unbounded) is not judged; every other part of every member is",
+    "index keys address composite axes only: an index placed after an Ellipsis reaches "
+    "the unit axes and is never driven",
     "generic objects with per-instance ranks are judged through apply and "
     "flatten_to_unit only (reshape / __getitem__ / stacking of such objects go "
     "through the class constructor, whose rank arguments are the caller's)",
@@ -1185,6 +1198,38 @@ def _structure_checks(run, kind, shape, raw, X, case, ktag=""):
     for i, u in units:
         if i[0] == shape[0] - 1 and not same("__getitem__[-1]", piece(neg, i[1:]), u, i):
             break
+    # __getitem__ with every kind of NumPy index over the composite axes: the
+    # selected units and the shape of the selection are what the same key gives
+    # on an array of unit numbers.  A key that is "normalised" on the way
+    # (tuple(key), list -> tuple, np.asarray of a tuple) changes meaning: a list
+    # selects along ONE axis, a tuple indexes one axis per entry.  (seeded
+    # change C04-r7-1: tuple(item) turned X[[2, 0]] into X[2, 0].)
+    numbers = np.arange(len(units)).reshape(shape)
+    for kname, key in _index_keys(shape):
+        want = numbers[key]
+        try:
+            sub = X[key]
+        except Exception as e:
+            import traceback
+            from .. import core
+            if core.raised_in_harness(e.__traceback__):
+                raise
+            mon.fail("structure/__getitem__[%s]/exception:%s%s" % (kname, type(e).__name__, ktag),
+                     "X[%s] raised %s: %s on a composite of shape %r"
+                     % (_key_repr(key), type(e).__name__, str(e)[:100], shape),
+                     dict(case, key=_key_repr(key)), tb=traceback.format_exc())
+            continue
+        if not mon.require(type(sub) is cls and tuple(sub.shape) == want.shape,
+                           "structure/__getitem__[%s]/shape%s" % (kname, ktag),
+                           "X[%s] of a composite of shape %r is a %s of shape %r, the same key "
+                           "selects shape %r from an array" % (_key_repr(key), shape, type(sub).__name__,
+                                                                tuple(sub.shape), want.shape),
+                           dict(case, key=_key_repr(key))):
+            continue
+        for j in np.ndindex(*want.shape):
+            i, u = units[int(want[j])]
+            if not same("__getitem__[%s]" % kname, piece(sub, j), u, i):
+                break
     # __iter__
     parts = list(X)
     if mon.require(len(parts) == shape[0], "structure/__iter__/count",
@@ -1447,7 +1492,9 @@ def wl_generic_ranks(run, rng, idx):
 # regular_polygon(m, radius=array) grouped vertex k of every polygon instead of
 # one m-gon per radius; C04-r4-3: commute() scaled its tolerance by the largest
 # commutator entry of the WHOLE composite.)
-ENTRY_SHAPES = [(3,), (2, 3), (), (1, 3), (2, 1, 3), (4,)]
+# size-1 composite axes in every position (seeded change C04-r7-2: a bare
+# np.squeeze dropped them from one of two returned arrays)
+ENTRY_SHAPES = [(3,), (2, 3), (), (1, 3), (2, 1, 3), (4,), (1,), (3, 1), (1, 1, 2)]
 
 
 def _entry_dev(rule, got, want):
@@ -1652,6 +1699,49 @@ def wl_relatives(run, rng, idx):
         run.note_class("relatives", kind, shape, tname, keykind, "array" if as_array else "object")
 
 
+def _key_repr(key):
+    if isinstance(key, tuple):
+        return "(" + ", ".join(_key_repr(k) for k in key) + ")"
+    if isinstance(key, np.ndarray):
+        return "array(%s)" % (key.tolist(),)
+    return "..." if key is Ellipsis else repr(key)
+
+
+def _index_keys(shape):
+    """(kind, key) for every kind of NumPy index that addresses composite axes
+    only (rank >= 1): lists, integer arrays (negative entries, repeats), boolean
+    masks over the first axis and over the whole shape, negative integers,
+    Ellipsis, and on rank >= 2 lists / arrays combined with integers, slices and
+    each other."""
+    a = shape[0]
+    total = int(np.prod(shape))
+    keys = [("list", [a - 1, 0]),
+            ("list-repeats", [0, 0, a - 1]),
+            ("int-array", np.array([a - 1, 0])),
+            ("int-array-negative", np.array([-1, 0, -a])),
+            ("int-array-2d", np.array([[0, a - 1], [a - 1, 0]])),
+            ("mask-first-axis", np.arange(a) % 2 == 0),
+            ("negative-ints", tuple(-1 for _ in shape)),
+            ("ellipsis", Ellipsis),
+            ("int-ellipsis", (a - 1, Ellipsis))]
+    if len(shape) >= 2:
+        b = shape[1]
+        keys += [("mask-full", (np.arange(total) % 2 == 0).reshape(shape)),
+                 ("lists-pointwise", ([0, a - 1], [b - 1, 0])),
+                 ("slice-list", (slice(None), [b - 1, 0])),
+                 ("list-slice", ([a - 1, 0], slice(None))),
+                 ("int-list", (a - 1, [0, b - 1])),
+                 ("list-int", ([0, a - 1], -1)),
+                 # (an index AFTER an Ellipsis addresses the unit axes: not an
+                 # index of the composite, never driven)
+                 ("list-ellipsis", ([a - 1, 0], Ellipsis))]
+    if len(shape) >= 3:
+        c = shape[2]
+        keys += [("slice-int-list", (slice(None), 0, [c - 1, 0])),
+                 ("arrays-broadcast", (np.array([[0], [a - 1]]), 0, np.array([0, c - 1])))]
+    return keys
+
+
 def _reshapes(shape):
     total = int(np.prod(shape))
     out = [(total,), (1, total), (total, 1)]
@@ -1676,6 +1766,6 @@ WORKLOADS = [
     Workload("generic-ranks", wl_generic_ranks, quick=120, thorough=2400),
     Workload("special-units", wl_special_units, quick=48, thorough=960),
     Workload("second-arguments", wl_second_arguments, quick=64, thorough=1280),
-    Workload("entry-points", wl_entry_points, quick=275, thorough=5500),
+    Workload("entry-points", wl_entry_points, quick=324, thorough=6480),
     Workload("relatives", wl_relatives, quick=84, thorough=1680),
 ]
